@@ -61,10 +61,14 @@ try:
     note(f"go build ./... with the change -> rc={rcb}")
     for t in tests:  # the demonstration is not part of the repository's suite (a failing demo may leave processes behind)
         os.remove(f"{wt}/utils/{pkgdir}/{t}")
+    demo_dir_own = not any(f.endswith(".go") for f in os.listdir(f"{wt}/utils/{pkgdir}"))
+    if demo_dir_own:  # the demonstration lives in a package of its own
+        shutil.rmtree(f"{wt}/utils/{pkgdir}")
     rct, outt = sh(f"python3 /verif/tools/baseline.py {wt} {' '.join(pkgs)}")
     if rct != 0:  # timing-sensitive tests under load: once more
         rct, outt = sh(f"python3 /verif/tools/baseline.py {wt} {' '.join(pkgs)}")
     note(f"repository baseline tests {' '.join(pkgs)} with the change -> {outt.strip().splitlines()[0] if outt.strip() else ''} rc={rct}")
+    os.makedirs(f"{wt}/utils/{pkgdir}", exist_ok=True)
     for t in tests:
         shutil.copy(f"{src}/demo/{t}", f"{wt}/utils/{pkgdir}/{t}")
     rc1, out1 = sh(demo, cwd=f"{wt}/utils", timeout=900)
